@@ -1,3 +1,3 @@
 From Coq Require Import ExtrOcamlBasic.
 From HV Require Import Base.BSet Gen.Tables Attr.Memattrs.
-Extraction "c14_model.ml" step init_state run gp_none os_none.
+Extraction "c14_model.ml" step init_state init_state_nomem run gp_none os_none.
